@@ -566,6 +566,48 @@ def miri_corpus(ctx, cdir, tags, meta, cfg, shards, limit, release=False):
     return total
 
 
+def memcheck_corpus(ctx, cdir, tag, meta, limit):
+    """Oracle-free run of the corpus shards (binaries of configuration `tag`) under valgrind memcheck: the real compiled
+    code - optimised in the release tags - on inputs dumped by the native driver, every source in its own exactly sized block."""
+    def one(i):
+        inp = os.path.join(cdir, "results", f"memcheck-inputs-{tag}-{i}.txt")
+        os.makedirs(os.path.dirname(inp), exist_ok=True)
+        rc, out = sh([os.path.join(cdir, "bin", tag, f"shard{i}"), "--corpus", os.path.join(cdir, "corpus.json"), "--mode", "dump", "--limit", str(limit),
+                      "--inputs", inp, "--seed", str(ctx.seed), "--out", os.path.join(cdir, "results", f"mdump{i}.json")], cwd=cdir, timeout=600)
+        if rc != 0:
+            return i, None, "dump failed: " + out[-300:]
+        try:
+            rc, out = sh(["valgrind", "--quiet", "--error-exitcode=99", "--errors-for-leak-kinds=definite", "--leak-check=full",
+                          os.path.join(cdir, "bin", tag, f"shard{i}"), "--mode", "bare", "--inputs", inp, "--corpus", "unused"], cwd=cdir, timeout=3000)
+        except Inconclusive as ex:
+            return i, None, str(ex)
+        return i, (rc, out), None
+    total = {"cases": 0, "items": 0, "shards": 0, "reports": 0}
+    with ThreadPoolExecutor(max_workers=NCPU) as ex:
+        results = list(ex.map(one, range(meta["shards"])))
+    for i, res, err in results:
+        if err:
+            ctx.inconclusive.append(f"memcheck corpus shard {i}: {err}")
+            continue
+        rc, out = res
+        if rc == 99 or "Invalid read" in out or "Invalid write" in out or "uninitialised" in out or "BARE-VIOLATION" in out:
+            total["reports"] += 1
+            lines = [l for l in out.splitlines() if l.startswith("==") or "BARE-VIOLATION" in l][:10]
+            ctx.add_violation({"property": ctx.prop, "level": "R", "rule": "memcheck-report", "stage": f"memcheck:{tag}", "config": tag,
+                               "detail": f"shard {i} under valgrind memcheck: " + " / ".join(lines)[:900], "output_tail": out[-3000:]})
+        summ = [l for l in out.splitlines() if l.startswith("BARE-SUMMARY")]
+        if summ:
+            kv = dict(t.split("=") for t in summ[0].split()[1:])
+            total["cases"] += int(kv["cases"])
+            total["items"] += int(kv["items"])
+            total["shards"] += 1
+        elif rc != 99:
+            ctx.inconclusive.append(f"memcheck corpus shard {i}: no summary (rc={rc}): {out[-300:]}")
+    ctx.coverage["evaluations"] += total["cases"]
+    ctx.add_stage(f"memcheck-corpus:{tag}", total)
+    return total
+
+
 def asan_corpus(ctx, profile, cfg, cap):
     """Whole stream workload of a corpus in an AddressSanitizer build (nightly)."""
     cdir, meta, _ = ensure_corpus(ctx, profile, [])
@@ -755,7 +797,8 @@ def check_C05(ctx):
     ctx.rules += [STREAM_RULE,
                   "C05: (i) offline join of per-case observation hashes default vs forbid_unsafe build; any panic while lexing is a violation; (ii) Source::read model in apidrv "
                   "(u8, &[u8;1..=16], &[u8;32]; str/[u8]/String/Vec/&str/Box<str>; lengths 0..=40; offsets 0..=len+9 and around usize::MAX) in debug and release, default and forbid_unsafe; "
-                  "(iii) the same workloads in an AddressSanitizer build with every source in an exactly sized heap block (front/back aligned); (iv) corpus shards and apidrv under Miri. "
+                  "(iii) the same workloads in an AddressSanitizer build with every source in an exactly sized heap block (front/back aligned); (iv) corpus shards and apidrv under Miri; "
+                  "(v) corpus shards under valgrind memcheck (uninstrumented binaries, in thorough the optimised release ones). "
                   "Non-trivial: distinct (definition, input, observation) cases; in-range reads compared byte for byte."]
     # a span outside the source or inside a code point is what lets safe code form an out-of-range slice:
     # the runner reports such spans instead of slicing, C05 adopts those reports
@@ -780,6 +823,11 @@ def check_C05(ctx):
     a = asan_corpus(ctx, "mixed", "tc", cap=tier_params(ctx.tier)["cap"] // (2 if ctx.tier == "quick" else 1))
     if ctx.tier == "thorough":
         asan_corpus(ctx, "mixed", "sm", cap=tier_params(ctx.tier)["cap"])
+    # valgrind memcheck: the same binaries as above (no instrumentation at compile time), in thorough also the optimised ones
+    memcheck_corpus(ctx, cdir, tags["tc"], meta, limit=300 if ctx.tier == "quick" else 1500)
+    if ctx.tier == "thorough":
+        memcheck_corpus(ctx, cdir2, tags2["tc"], meta2, limit=1500)
+        memcheck_corpus(ctx, cdir, tags["sm"], meta, limit=1500)
     miri_apidrv(ctx, ["read"], "tc", release=False)
     shards = [0, 1, 2, 3] if ctx.tier == "quick" else list(range(meta["shards"]))
     miri_corpus(ctx, cdir, tags, meta, "tc", shards, limit=10 if ctx.tier == "quick" else 40)
